@@ -119,8 +119,8 @@ func (s mStep) String() string {
 type qkey struct{ n, t, c, cd, s int }
 type zkey struct{ z, c int }
 
-func qk(a []int) qkey { return qkey{a[0], a[1], a[2], a[3], a[4]} }
-func zk(a []int) zkey { return zkey{a[0], a[1]} }
+func qk(a []int) qkey     { return qkey{a[0], a[1], a[2], a[3], a[4]} }
+func zk(a []int) zkey     { return zkey{a[0], a[1]} }
 func (k qkey) arr() []int { return []int{k.n, k.t, k.c, k.cd, k.s} }
 func (k zkey) arr() []int { return []int{k.z, k.c} }
 
